@@ -1,6 +1,6 @@
 package quic
 
-// Bridge for the C16 end-to-end monitor (package quic_test): a snapshot of a Transport's routing state.
+// Bridge for the C16 and C17 end-to-end monitors (package quic_test): a snapshot of a Transport's routing state.
 
 // VerifRouting returns the connection IDs currently routed by t (hex), how many of them are
 // routed to a closed-connection placeholder, and the number of registered stateless reset tokens.
